@@ -11,6 +11,7 @@ import (
 	"strings"
 	"time"
 
+	"github.com/opencontainers/go-digest"
 	"github.com/regclient/regclient"
 	"github.com/regclient/regclient/config"
 	"github.com/regclient/regclient/internal/reghttp"
@@ -23,21 +24,25 @@ import (
 	"github.com/regclient/regclient/types/descriptor"
 	"github.com/regclient/regclient/types/manifest"
 	"github.com/regclient/regclient/types/ref"
-	"github.com/opencontainers/go-digest"
 )
 
 // C12: bounded retries, recovery from transient faults, writes skip mirrors.
 //
 // mode A  one logical request through the real internal/reghttp.Client with a
-//         scripted fault sequence per host (incl. servers that repeat one
-//         reply forever): attempts <= limit+1, spacing of attempts to a
-//         failing host, Retry-After honoured, termination, mirror order.
+//
+//	scripted fault sequence per host (incl. servers that repeat one
+//	reply forever): attempts <= limit+1, spacing of attempts to a
+//	failing host, Retry-After honoured, termination, mirror order.
+//
 // mode B  every public operation with fewer transient faults than the limit:
-//         the result equals the fault-free result; no state-changing request
-//         ever reaches a mirror.
+//
+//	the result equals the fault-free result; no state-changing request
+//	ever reaches a mirror.
+//
 // mode C  adversarial servers repeating one reply forever on a class of
-//         requests (upload session, pagination self-loop): the operation
-//         must terminate and an upload must not repeat a request without progress.
+//
+//	requests (upload session, pagination self-loop): the operation
+//	must terminate and an upload must not repeat a request without progress.
 func init() {
 	core.Register(&core.Prop{ID: "C12", Run: runC12, Liveness: true, MaxSteps: 25000, MaxIdle: 2 * time.Hour, NoShrinkStreams: nil})
 }
@@ -60,11 +65,11 @@ var c12Transient = []int{simnet.F500, simnet.F502, simnet.F504, simnet.F408, sim
 var c12All = []int{simnet.F500, simnet.F502, simnet.F504, simnet.F408, simnet.F429, simnet.F429RetryAfter, simnet.FConnReset, simnet.FTruncate, simnet.F503, simnet.F404, simnet.F416, simnet.F401, simnet.F403}
 
 type c12Host struct {
-	Name     string `json:"name"`
-	Priority uint   `json:"priority"`
-	Has      bool   `json:"has_content"`
+	Name     string   `json:"name"`
+	Priority uint     `json:"priority"`
+	Has      bool     `json:"has_content"`
 	Script   []string `json:"script"`
-	Forever  string `json:"forever,omitempty"`
+	Forever  string   `json:"forever,omitempty"`
 	script   []int
 	forever  int
 }
@@ -172,8 +177,8 @@ func c12A(e *core.Env) {
 	// while the next request is made (overlapping lifetimes, still one caller)
 	nreq := 1 + e.Choose("gen", 4, "nreq")
 	type lreq struct {
-		Hold    bool   `json:"hold_open_during_next"`
-		ThinkMS int    `json:"think_ms_before"`
+		Hold    bool `json:"hold_open_during_next"`
+		ThinkMS int  `json:"think_ms_before"`
 		resp    *reghttp.Resp
 		err     error
 		got     []byte
@@ -697,7 +702,9 @@ func c12C(e *core.Env) {
 			return rs
 		}
 	case "upload-status-forever-stale":
-		fh.match = func(r *simnet.Request) bool { return r.Method == "PATCH" || (r.Method == "GET" && strings.Contains(r.Path, "/uploads/")) }
+		fh.match = func(r *simnet.Request) bool {
+			return r.Method == "PATCH" || (r.Method == "GET" && strings.Contains(r.Path, "/uploads/"))
+		}
 		fh.reply = func(r *simnet.Request) *simnet.Response {
 			if r.Method == "PATCH" {
 				return simnet.NewResponse(500)
